@@ -29,12 +29,12 @@ class SimEnv:
     """with SimEnv(tape) as env: env.loop, env.net"""
 
     def __init__(self, tape, max_callbacks=300_000, max_vtime=1e7, vary_latency=True,
-                 vary_segmentation=True):
+                 vary_segmentation=True, id_seed=12345):
         self.tape = tape
         self.loop = new_loop(max_callbacks=max_callbacks, max_vtime=max_vtime)
         self.net = SimNet(self.loop, tape, vary_latency=vary_latency,
                           vary_segmentation=vary_segmentation)
-        self._idrng = random.Random(12345)
+        self._idrng = random.Random(id_seed)
 
     def __enter__(self):
         loop = self.loop
